@@ -1473,6 +1473,8 @@ class CanUnprotect(BaseSecurityContext):
             raise DecodeError("Protected data uses reserved fields")
 
         pivsz = firstbyte & COMPRESSION_BITS_N
+        if pivsz > 5:
+            raise DecodeError("Partial IV lengths 6 and 7 are reserved")
         if pivsz:
             if len(tail) < pivsz:
                 raise DecodeError("Partial IV announced but not present")
